@@ -52,7 +52,7 @@ func init() {
 	check.RegisterProp("C04", plan([]string{"C04"}, []fam{{"entities", 7, 8}, {"components-ids", 3, 4}, {"modules", 4, 5}, {"lifecycle", 6, 8}, {"groundplane", 4, 6}}, func(tier string) []check.Job {
 		// the remaining request kinds: receipts (incl. the queue-full answer), signed latency starts,
 		// and two concurrent adds of one component (exactly one success)
-		p1, _ := json.Marshal(c19Params{Cap: 1, Mode: "never", Pairs: true})
+		p1, _ := json.Marshal(c19Params{Cap: 1, Mode: "never", Pairs: true, Fill: true})
 		p2, _ := json.Marshal(c19Params{Cap: 128, Mode: "200", Pairs: true})
 		p3, _ := json.Marshal(c18Params{Mode: "counts"})
 		return []check.Job{
